@@ -289,9 +289,13 @@ def corpus():
 def known_signature(k, engine, case, model, spec, impl):
     """C13-same-name-panic: the minimised case panics in the model at the same load as in the implementation, where the
     spec asks for a successful load, and some load names a unit and a target alike."""
+    import vcommon as V          # lib/ is on sys.path when ./check loads the plugin
+    if engine == "e2e":
+        # C13-vrib-query-todo (class KV): every token that departs from the spec is the one the model gives - v:STALL at the
+        # query of a generated vRIB about a prefix the physical RIB holds a record of, `x` for the ops the engine then skips
+        return k.get("class") == "KV" and V.explained_by(model, spec, impl, {"KV"})
     if k.get("id") != "C13-same-name-panic" or engine != "c13":
         return False
-    import vcommon as V          # lib/ is on sys.path when ./check loads the plugin
     if "PANIC" not in model.split() or "PANIC" in spec.split() or not V.obs_match(model, impl):
         return False
     for op in case.split(";"):
@@ -306,6 +310,98 @@ ENGINES = [{"name": "c13", "gen": gen, "corpus": corpus, "nontrivial": nontrivia
 from props.e2e_common import e2e_engine, E2E_TRUSTED
 ENGINES.append(e2e_engine("C13"))   # reloads (ops L / H) of a real running pipeline: sessions and RIB contents survive, later routers are served
 TRUSTED_BASE.append(E2E_TRUSTED)
+
+# ---- established BGP sessions of a reconfigured bgp-tcp-in unit: engine `bgpend` (the real per-session Processor::process loop
+# over a scripted session, design-notes/C07.md) with a profile of its own: an established session that announced routes is shown
+# reconfigurations of every kind - the unit's main settings changed, nothing changed, this peer's entry changed, this peer removed,
+# only ANOTHER peer's entry changed / added (`r other`) - between further UPDATEs. What C13 asks: a reconfiguration that concerns
+# neither the main settings nor this peer leaves the session alone (no Disconnect, routes keep flowing, one withdrawal at the end).
+from props import bgpend_common
+import itertools
+
+BGP_KINDS = ["r unit", "r same", "r peer", "r gone", "r other"]
+BGP_PRE = "S 7 0 1;P 9 1,2 -;g;n;u 3 1,3 -"
+
+
+def bgp_gen(rng, tier):
+    quick = tier == "quick"
+    # every sequence of 1-3 (thorough: 4) reconfigurations, with and without routes in between, then routes and the end
+    for n in range(1, 4 if quick else 5):
+        for seq in itertools.product(BGP_KINDS, repeat=n):
+            yield ";".join([BGP_PRE] + list(seq) + ["u 4 2 1", "l 0"])
+            if n <= 2:
+                yield ";".join([BGP_PRE] + [x for r in seq for x in (r, "u 5 4 -")] + ["x"])
+    for _ in range(700 if quick else 12000):
+        ops = [f"S {rng.choice([7, 7, 3, 41])} 0 {1 if rng.chance(70) else 0}"]
+        for i in range(rng.range(0, 2)):
+            ops.append("P " + bgpend_common.routes(rng, 20 + i))
+        for _ in range(rng.range(0, 2)):
+            ops.append(rng.choice(["t", "k", "r other", "r same"]))
+        ops += ["g", "n"]
+        for _ in range(rng.range(2, 9)):
+            r = rng.below(100)
+            if r < 45:
+                ops.append("u " + bgpend_common.routes(rng, rng.range(1, 9)))
+            elif r < 70:
+                ops.append("r other")
+            elif r < 80:
+                ops.append("r same")
+            elif r < 87:
+                ops.append("r peer")
+            else:
+                ops.append(rng.choice(["t", "k", "T"]))
+        ex = rng.choice(bgpend_common.EXITS)
+        if ex:
+            ops.append(ex)
+        yield ";".join(ops)
+
+
+def bgp_corpus():
+    return [
+        # seeded C13-b2 (BgpTcpIn / PeerConfigs with a derived PartialEq: the whole [peers.*] table and filter_name became part of the
+        # "main settings" comparison): a reload that adds / changes ANOTHER peer reset every established session of the unit
+        BGP_PRE + ";r other;u 4 2 1;r other;r same;u 5 4 -;l 0",
+        BGP_PRE + ";r other",
+        # the reconfigurations that do concern the session: its own entry changed (told to disconnect, the loop goes on until the
+        # session ends), removed, main settings changed
+        BGP_PRE + ";r peer;u 4 2 1;e 0", BGP_PRE + ";r gone;u 4 2 1", BGP_PRE + ";r unit;u 4 2 1",
+        # before the session is established
+        "S 7 0 1;r other;g;r other;n;u 3 1 -;r other;l 1",
+    ]
+
+
+def bgp_nontrivial(case, out):
+    t = out.split()
+    used = next((int(x[5:]) for x in t if x.startswith("used:")), 0)
+    evs = bgpend_common.events_of(case)[:used]
+    return any(e.startswith("r ") for e in evs) and "w:s" in t
+
+
+def bgp_classify(case, out):
+    t = out.split()
+    used = next((int(x[5:]) for x in t if x.startswith("used:")), 0)
+    evs = bgpend_common.events_of(case)[:used]
+    ks = []
+    spared = [i for i, e in enumerate(evs) if e in ("r other", "r same")]
+    if spared:
+        ks.append("reconfiguration-spares-session")
+        if any(e.startswith("u ") for e in evs[spared[0] + 1:]):
+            ks.append("routes-after-spared-reconfiguration")
+    if any(e == "r other" for e in evs):
+        ks.append("other-peers-changed")
+    cmds = next((x for x in t if x.startswith("cmds:")), "cmds:-")
+    if "reconfiguration" in cmds or "deconfigured" in cmds:
+        ks.append("session-reset-by-reconfiguration")
+    return ks + bgpend_common.classify(case, out)[:1]
+
+
+ENGINES.append({"name": "bgpend", "gen": bgp_gen, "corpus": bgp_corpus, "nontrivial": bgp_nontrivial, "classify": bgp_classify, "shards": 8})
+TRUSTED_BASE.append(bgpend_common.BGPEND_TRUSTED)
+ASSUMPTIONS = ASSUMPTIONS + bgpend_common.BGPEND_ASSUMPTIONS
+RULE = RULE + ("; engine bgpend (C13 profile): an established BGP session that announced routes is shown every sequence of up to 3 (thorough: 4) "
+               "reconfigurations of the five kinds (main settings changed / nothing changed / this peer's entry changed / this peer removed / only "
+               "another peer's entry changed or added), and random scripts of UPDATEs, reconfigurations and every exit of the loop; non-trivial = a "
+               "reconfiguration was seen by the loop and the session ended with its withdrawal")
 EXTRAS = []
 
 LEVEL_TEXT = ("Theorems over all abstract TOML documents and all histories of loads of the manager model (accepts exactly the valid "
@@ -319,5 +415,9 @@ LEVEL_NOTE = ("Partial: 'keeps its state (RIB contents, sessions)' is not modell
               "component a Reconfigure and neither Terminate nor Spawn; spawn/reconfigure/terminate are recording stubs, no unit is run by the `c13` engine; the `e2e` engine reloads a real running pipeline "
               "(bmp-tcp-in -> rib) under traffic and checks from outside that sessions and RIB contents survive, that every reload's settings "
               "are adopted (router_id_template, listen port) and that routers connecting afterwards are served (design-notes/E2E.md). "
+              "The `e2e` profile also runs a shorthand RIB with generated vRIBs and asks their HTTP endpoints before and after reloads (known finding "
+              "C13-vrib-query-todo: a vRIB asked about a stored prefix never answers); the `bgpend` engine shows established BGP sessions of a "
+              "reconfigured bgp-tcp-in unit every kind of reconfiguration: only those that change the main settings or the session's own peer entry "
+              "reset it (C13_bgp_spared_reconfigurations_invisible). "
               "Trusted: Coq kernel, ExtrOcamlBasic extraction + OCaml driver, Rust harness (TOML rendering, Debug-based read-out) and generators.")
 TECHNIQUE = "Coq proof over load histories (closed form of one reload + induction) + model/implementation correspondence"
